@@ -7,6 +7,8 @@ kernel ignores its PRNG key and writes *stamps* that encode the producing iterat
     kernel i (1-based):      reads  mark = state["c"] % 4            (who wrote the state last)
                              writes state[key][j] = (sv*4 + mark)*8 + j   for each of its position keys
                              writes state["c"]    = sv*4 + i              ("derived" key, not a kernel key)
+                             writes state["acc"]  = state["acc"] + 1      (running number of kernel transitions:
+                                                                           depends on the WHOLE history of the carry)
     transition info          stamp = sv*4 + i
     kernel state             last  = sv*4 + i , ntrans += 1 ; start_epoch: nstart += 1
     quantity generator g     val = state["c"]*2 + g   ,  ep = nth_epoch*1000 + time_in_epoch (as handed over)
@@ -103,6 +105,7 @@ def defs():
                     n *= d
                 pos[key] = ((sv * 4 + mark) * 8 + jnp.arange(n, dtype=jnp.int32)).reshape(shp).astype(jnp.int32)
             pos["c"] = jnp.asarray(sv * 4 + self.kid, dtype=jnp.int32)
+            pos["acc"] = jnp.asarray(model_state["acc"] + 1, dtype=jnp.int32)
             new_state = self._model.update_state(pos, model_state)
             info = StampInfo(jnp.int32(0), jnp.float32(1.0), jnp.int32(1), jnp.asarray(sv * 4 + self.kid, dtype=jnp.int32))
             ks = StampKState(jnp.asarray(sv * 4 + self.kid, dtype=jnp.int32), kernel_state.ntrans + 1, kernel_state.nstart)
@@ -144,7 +147,10 @@ def run_config(cfg):
           "extra": [[key, shape_name], ...]                 state entries no kernel controls (besides "c")
           "incl": [...], "excl": [...], "ngens": g, "store_ks": bool,
           "chunk": None (builder: gcd) | int (Engine constructed directly with this jitted duration),
-          "driver": "all" | "step"}
+          "driver": "all" | "step" | "append:<k>:each" | "append:<k>:bulk"}
+          append:<k>: the engine is constructed with the first k epochs only and samples them; the remaining
+          epochs are handed over afterwards with Engine.append_epoch (each: append one, sample it, ...;
+          bulk: append all, then sample_all_epochs).  Needs an explicit "chunk".
     """
     import jax
     import jax.numpy as jnp
@@ -159,7 +165,7 @@ def run_config(cfg):
     epochs = [EpochConfig(EpochType[TYPES[t]], dur, th, None) for (t, dur, th) in cfg["epochs"]]
     kernels = []
     state = {"c": jnp.zeros((nch,), jnp.int32), "cid": jnp.arange(nch, dtype=jnp.int32),
-             "junk": jnp.full((nch,), 77, jnp.int32)}
+             "junk": jnp.full((nch,), 77, jnp.int32), "acc": jnp.zeros((nch,), jnp.int32)}
     for i, keys in enumerate(cfg["kernels"]):
         kernels.append(d["StampKernel"](i + 1, [k for k, _ in keys], {k: SHAPES[s] for k, s in keys}))
         for k, s in keys:
@@ -174,6 +180,11 @@ def run_config(cfg):
     model = gs.DictInterface(lambda st: 0.0)
 
     out = {"error": None}
+    drv = cfg.get("driver", "all")
+    nfirst = len(epochs)
+    if drv.startswith("append"):
+        nfirst = int(drv.split(":")[1])
+        assert cfg.get("chunk") is not None and 1 <= nfirst <= len(epochs)
     try:
         builder = gs.EngineBuilder(seed=cfg.get("seed", 1), num_chains=nch)
         builder.set_model(model)
@@ -194,19 +205,29 @@ def run_config(cfg):
                 seeds=jax.random.split(builder.engine_seed, nch),
                 model_states=state,
                 kernel_sequence=KernelSequence(kernels),
-                epoch_configs=epochs,
+                epoch_configs=epochs[:nfirst],
                 jitted_sample_duration=int(cfg["chunk"]),
                 model=model,
-                position_keys=list(engine._position_keys) if False else _builder_keys(cfg),
+                position_keys=_builder_keys(cfg),
                 store_kernel_states=bool(cfg["store_ks"]),
                 quantity_generators=gens,
                 show_progress=False,
             )
-        if cfg.get("driver", "all") == "all":
+        if drv == "all":
             engine.sample_all_epochs()
-        else:
+        elif drv == "step":
             while not engine.is_sampling_done():
                 engine.sample_next_epoch()
+        else:
+            engine.sample_all_epochs()
+            if drv.endswith("bulk"):
+                for e in epochs[nfirst:]:
+                    engine.append_epoch(e)
+                engine.sample_all_epochs()
+            else:
+                for e in epochs[nfirst:]:
+                    engine.append_epoch(e)
+                    engine.sample_next_epoch()
         res = engine.get_results()
     except RuntimeError as ex:
         out["error"] = "RuntimeError"
